@@ -315,6 +315,16 @@ func (d *EntitlementMappingDeclaration) Doc(ctx PrettyContext) prettier.Doc {
 		prettier.Text(d.Identifier.Identifier),
 	)
 
+	// A mapping without elements is printed like an empty members block.
+	// (prettier.Join of no documents is nil, which must not be put in a Concat)
+	if len(d.Elements) == 0 {
+		return ctx.Wrap(d, prettier.Concat{
+			prettier.Group{Doc: headerDoc},
+			prettier.Space,
+			membersEmptyDoc,
+		})
+	}
+
 	var elementsDocs prettier.Concat
 
 	for _, element := range d.Elements {
